@@ -79,3 +79,11 @@ def pep440_slot_text(vtext, vpattern):
     vinfo = v2version.parse_version_info(vtext, vpattern)
     normalized = v2patterns.normalize_pattern(vpattern, "{pep440_version}")
     return v2version.format_version(vinfo, normalized)
+
+
+def search_pattern_finds(vpattern, raw_pattern, text):
+    """Does the search pattern compiled by bumpver for (version pattern, raw file pattern) match inside text?"""
+    _v2v, v2patterns, _v1v, v1patterns, _version, _config = _mods()
+    mod = v1patterns if is_legacy(vpattern) else v2patterns
+    rx = mod.compile_pattern(vpattern, raw_pattern).regexp
+    return rx.search(text) is not None
